@@ -1,30 +1,6 @@
-mod engine;
-mod fcmp;
-mod net;
-mod refmodel;
-mod tape;
-mod tens;
 
-mod c01;
-mod c02;
-mod c03;
-mod c04;
-mod c05;
-mod c06;
-mod c07;
-mod c08;
-mod c09;
-mod c10;
-mod c11;
-mod c12;
-mod c13;
-mod c14;
-mod c15;
-mod c16;
-mod c17;
-mod c18;
 
-use engine::{Engine, Tier};
+use nverif::engine::{Engine, Tier};
 
 fn usage() -> ! {
     eprintln!("usage: nverif <ID> [--tier quick|thorough] [--seed N] [--replay FILE] [--verif-dir DIR]");
@@ -77,31 +53,16 @@ fn main() {
     // Library panics are part of what is observed (caught per case); keep stderr quiet.
     std::panic::set_hook(Box::new(|_| {}));
 
+    // a replay file records the tier its tape was generated for (decoders may depend on it)
+    if let Some(path) = &replay {
+        if let Ok(text) = std::fs::read_to_string(path) {
+            if text.contains("\"tier\": \"thorough\"") || text.contains("\"tier\":\"thorough\"") {
+                tier = Tier::Thorough;
+            }
+        }
+    }
     let out_dir = out_dir.unwrap_or_else(|| verif_dir.clone());
     let eng = Engine::new(&id, tier, seed, &verif_dir, &out_dir);
-    let code = match id.as_str() {
-        "C01" => c01::run(&eng, replay.as_deref()),
-        "C02" => c02::run(&eng, replay.as_deref()),
-        "C03" => c03::run(&eng, replay.as_deref()),
-        "C04" => c04::run(&eng, replay.as_deref()),
-        "C05" => c05::run(&eng, replay.as_deref()),
-        "C06" => c06::run(&eng, replay.as_deref()),
-        "C07" => c07::run(&eng, replay.as_deref()),
-        "C08" => c08::run(&eng, replay.as_deref()),
-        "C09" => c09::run(&eng, replay.as_deref()),
-        "C10" => c10::run(&eng, replay.as_deref()),
-        "C11" => c11::run(&eng, replay.as_deref()),
-        "C12" => c12::run(&eng, replay.as_deref()),
-        "C13" => c13::run(&eng, replay.as_deref()),
-        "C14" => c14::run(&eng, replay.as_deref()),
-        "C15" => c15::run(&eng, replay.as_deref()),
-        "C16" => c16::run(&eng, replay.as_deref()),
-        "C17" => c17::run(&eng, replay.as_deref()),
-        "C18" => c18::run(&eng, replay.as_deref()),
-        _ => {
-            eprintln!("unknown property {}", id);
-            2
-        }
-    };
+    let code = nverif::run_property(&id, &eng, replay.as_deref());
     std::process::exit(code);
 }
